@@ -119,6 +119,8 @@ func Main() {
 				o.Only = next()
 			case "--percase":
 				o.PerCase = true
+			case "--list":
+				o.ListOnly = true
 			case "--tag":
 				o.Tag = next()
 			case "--skip":
